@@ -346,6 +346,8 @@ class Gen:
             p.add(["H", "K"][i], "con", ["E", "E"], "E", cost=r.choice(costs))
         for i in range(pf["intcon"]):
             p.add(["N", "M"][i], "con", ["i64"], "E")
+        for i in range(pf.get("mixcon", 0)):
+            p.add(["Q", "P"][i], "con", ["i64", "E"], "E")          # an e-class column next to a base column
         for i in range(pf["rels"]):
             ar = r.choice([1, 2])
             p.add(["R", "S", "T"][i], "con", ["E"] * ar, "RelSort%d" % i, rel=True)
